@@ -784,6 +784,20 @@ func (t *tracer) structLiterals(v ssa.Value, ctx []callCtx, depth int) []structL
 
 func (t *tracer) structLiteralsOfCall(c *ssa.Call, idx int, ctx []callCtx, depth int) []structLit {
 	g := c.Call.StaticCallee()
+	if g == nil && !c.Call.IsInvoke() {
+		// a function value handed down (buildInput func() core.QueryInput): the closures it can be, in the context
+		rv, rctx := resolveParam(c.Call.Value, ctx)
+		var out []structLit
+		for _, h := range t.e.closuresOf(rv, rctx, 0) {
+			for _, r := range returnsOf(h) {
+				vals := retVals(r)
+				if idx < len(vals) {
+					out = append(out, t.structLiterals(vals[idx], nil, depth+1)...)
+				}
+			}
+		}
+		return out
+	}
 	if g == nil || g.Blocks == nil || t.e.fnRole(g) == "" {
 		return nil
 	}
